@@ -41,11 +41,12 @@ CHECKS["C11"] = dict(
          "correspondence executes): converting raw candles yields the HA recurrence of the property text, tags all, keeps raw values in "
          "clean_values and clears readings; convert(convert xs ++ ys) = convert(xs ++ ys) for any xs incl. empty/singleton (each candle "
          "converted exactly once, any append schedule on the base timeframe); conversion of candle i depends on candles <= i only; a raw "
-         "candle merged into a converted bucket is merged into its raw values; the pre-repair resume index (finding F4) is refuted. "
+         "candle merged into a converted bucket is merged into its raw values; the pre-repair resume index (finding F4) is refuted; "
+         "and composed with a collapsing timeframe: mgr_append cfg (tasks cfg xs) ys = tasks cfg (xs ++ ys) for the whole pipeline "
+         "(collapse, convert from the resume index), any sorted raw stream and any split. "
          "Correspondence: manager with HA, with/without timeframe and fill, states compared bit for bit incl. clean values and tags.",
-    note="The composed statement 'manager with timeframe + HA under appends = convert(resample(stream))' is not yet a single theorem: "
-         "its three ingredients (C03_recollapse, C11_merge_recovers_raw, C11_incremental/prefix_stable) are proved, their composition is "
-         "covered by correspondence + falsifier. Axioms: none.",
+    note="Fill candles and candles_lifespan in the composed pipeline statement are covered by correspondence + falsifier, not by the "
+         "theorem. Axioms: none.",
     technique="Coq proof (induction over the conversion loop, resume-index lemmas) + vm_compute correspondence + falsifier",
     design="5/C11")
 CHECKS["C12"] = dict(
@@ -78,11 +79,12 @@ CHECKS["C01"] = dict(
          "_calculate_reading is pure and causal, any split of a stream into append chunks - into an empty or an already calculated "
          "indicator - ends in exactly the store (or exception) of one calculate() over the whole stream (canonical causal semantics, "
          "proved by induction over the loop for all streams, lengths and chunkings), and on a collapsing timeframe the re-collapse "
-         "of calculated buckets followed by new raw candles, then calculate(), gives the batch result on the resampled whole stream. "
+         "of calculated buckets followed by new raw candles, then calculate(), gives the batch result on the resampled whole stream "
+         "- also with Heikin-Ashi conversion between collapse and indicator. "
          "The two obligations are discharged for HLA, TR, OBV, EMA, SMA, RMA, WMA, VWMA, ROC, Counter, HL, Donchian, AROON and every Amorph-wrapped analysis "
          "function (all periods >= 1, all inputs not reading the own slot). " + ENGINE_TIE +
          "Falsifier: incremental vs batch deep equality over all 27 kinds + Amorph wrappers, base/S/T/H/D timeframes, fill, HA.",
-    note="Proved for leaf indicators on the base and on collapsing timeframes (without fill/Heikin-Ashi in the composition); for the "
+    note="Proved for leaf indicators on the base and on collapsing timeframes, with or without Heikin-Ashi (fill and lifespan are not in the composition); for the "
          "other kinds and composite trees the property is decided by correspondence + falsifier. Axioms: none.",
     technique="Coq proof (canonical-semantics induction over the calculate loop; per-indicator causality lemmas) + vm_compute correspondence + falsifier",
     design="5/C01")
